@@ -905,6 +905,10 @@ func ToInt(any any) (int, error) {
 	// This way of casting values to float64 is inefficient
 	// I have used this technique to avoid writing a long
 	// switch case only.
+	if float, ok := any.(float64); ok && float == math.Trunc(float) && math.Abs(float) < 1<<53 {
+		// %v prints integral doubles from 1e+06 on in exponent form, which Atoi rejects
+		return int(float), nil
+	}
 	number, err := strconv.Atoi(fmt.Sprintf("%v", any))
 	if err != nil {
 		return 0, err
